@@ -78,7 +78,7 @@ PROPS = {
         'suites': [('caches', 400, 4000, ''), ('cachesa', 200, 2000, ''), ('cachecfg', 100, 1000, '')],
         'rule': CACHE_RULE % "Cache and AsyncCache" + "close() racing other operations and other close() calls; monitors: after close() returned Ok every operation that begins is inert and leaves the snapshot unchanged, both workers have left their loops, no client is stuck",
         'assumptions': COMMON_ASSUMPTIONS,
-        'partial': "OS thread exit and exit of workers when every handle is dropped without close() are runtime behaviour (observed by the harness: the worker leaves its loop), not theorems",
+        'partial': "async flavour: close() returns once the stop message is buffered; that the processor then takes it needs fairness of select! (the theorem is: exited or the stop message is pending); OS thread exit and the exit of workers when every handle is dropped without close() are runtime behaviour (observed by the harness), not theorems",
     },
     'C16': {
         'suites': [('cachet', 400, 4000, ''), ('cacheqa', 150, 1500, '')],
